@@ -164,7 +164,7 @@ def r06_1(rep: Report) -> None:
                     for te, ve in zip(t.elts, n.value.elts):
                         if isinstance(te, ast.Name) and te.id in end_names:
                             pairs.append((n, ve))
-    forms = [(n, linear(v)) for n, v in pairs]
+    forms = [(n, linear(subst_locals(g, v))) for n, v in pairs]
     defaults = [(n, f) for n, f in forms if f is not None and set(f) <= {L, ''} and L in f]
     gc = 'dashlive/server/requesthandler/base.py::RequestHandlerBase.get_http_range'
     if defaults and all(f == {L: 1, '': -1} for _n, f in defaults):
